@@ -3,6 +3,7 @@
 
 pub mod echo;
 pub mod harness;
+pub mod mt;
 pub mod ops;
 pub mod props;
 pub mod report;
@@ -10,6 +11,7 @@ pub mod types;
 
 pub use echo::*;
 pub use harness::*;
+pub use mt::*;
 pub use ops::*;
 pub use types::*;
 
